@@ -17,7 +17,10 @@ EXPLANATION = (
     "back): on the overwrite path of Storage::insert / OccupiedEntry::insert the old value is exchanged with the new one by mem::swap/replace and "
     "the function returns it; the fresh path returns None after not_present_insert. R6 (mask written whole only with clean): a call that empties an "
     "owner's mask (mem::take/replace/swap, BitSet::clear on the field) is followed on every path by clean() of the sibling storage. R7 (parallel "
-    "arrays reset together): every Vec field a storage's insert pushes onto is cleared by its clean(). W10: outside the crate the raw storage is only "
+    "arrays reset together): every Vec field a storage's insert pushes onto is cleared by its clean(). R8 (accessor siblings): within one storage impl, "
+    "get, get_mut and shared_get_mut compute the position they read in the component container by the same chain of operations from the index "
+    "parameter (sibling agreement on the abstracted origin of the container index; a 'fast path' that indexes directly in one accessor only is a "
+    "disagreement). W10: outside the crate the raw storage is only "
     "reachable mutably through an unsafe fn and the mask / inner fields of MaskedStorage are private, so the discipline cannot be bypassed by safe user code."
 )
 NOT_DECIDED = ("equality with a map for all operation sequences: return VALUES, dense swap_remove index fix-up, default-filled gaps, slice views "
@@ -135,7 +138,8 @@ def run(ctx):
     for r, t in [("C04-R1", "raw insert/remove paired with the mask update"), ("C04-R2", "raw access only under the mask (enumerated idioms)"),
                  ("C04-R3", "entry / paired-item constructors under the right mask test"), ("C04-R4", "drain removes through the masked storage"),
                  ("C04-R5", "overwrite hands back the replaced value"), ("C04-R6", "an owner's mask is emptied only together with clean()"),
-                 ("C04-R7", "parallel arrays of a storage are reset together")]:
+                 ("C04-R7", "parallel arrays of a storage are reset together"),
+                 ("C04-R8", "get / get_mut / shared_get_mut of a storage locate the slot the same way")]:
         ctx.rule(r, t)
     ctx.exception("<storage::Storage<'e, T, D>::not_present_insert::RemoveOnDrop<'a, T> as std::ops::Drop>::drop", "R1: undoes an insert whose mask update unwound")
     ctx.exception("<changeset::ChangeSet<T> as join::Join>::get / LendJoin::get", "R1: consuming join, the mask is owned by the iterator (C16)")
@@ -150,6 +154,7 @@ def run(ctx):
         r5(ctx, facts)
         r6(ctx, facts)
         r7(ctx, facts)
+        r8(ctx, facts)
     from .. import witness
     witness.run_set(ctx, "C04", ["w10_unprotected_storage_mut_needs_unsafe", "w10_masked_storage_fields_private"])
 
@@ -401,3 +406,82 @@ def r7(ctx, facts):
         ctx.ob("C04-R7", "%s clean() resets every vector insert() pushes onto" % base_ty(im["self_ty"]), not missing, cl.loc(),
                "" if not missing else "insert() pushes onto %s but clean() does not clear %s: the parallel arrays go out of step after a clear()" % (sorted(pushed), sorted(missing)))
     ctx.floor("C04-R7", "storages with parallel arrays", n, 1)
+
+
+LOCATE = {"get", "get_mut", "get_unchecked", "get_unchecked_mut", "index", "index_mut", "shared_get_mut", "entry", "get_many_mut"}
+TRANSPARENT_NAMES = {"deref", "deref_mut", "borrow", "borrow_mut", "as_ref", "as_mut", "as_slice", "as_mut_slice", "as_ptr", "as_mut_ptr"}
+
+
+def abst(b, org, depth=0):
+    """abstraction of an index origin: the chain of (normalised) operations leading from parameters to the value"""
+    if depth > 12:
+        return "?"
+    k = org[0]
+    if k == "param":
+        return "P%d%s" % (org[1], "".join("." + x for x in org[2]))
+    if k == "const":
+        return "c"
+    if k == "call":
+        t = b.term(org[1])
+        nm = t["callee"].get("name") or "?"
+        args = [abst(b, b.operand_origin(a), depth + 1) for a in t["args"]]
+        if nm in TRANSPARENT_NAMES and args:
+            return args[0]
+        if nm in LOCATE:
+            nm = "at"
+        return "%s(%s)" % (nm, ",".join(args))
+    if k == "op":
+        return "%s(%s)" % (org[1].replace("WithOverflow", "").replace("Unchecked", ""), ",".join(abst(b, o, depth + 1) for o in org[2]))
+    if k == "phi":
+        return "phi{%s}" % ",".join(sorted({abst(b, o, depth + 1) for o in org[2]}))
+    if k == "agg":
+        return "agg"
+    return k
+
+
+def r8(ctx, facts):
+    from . import c08
+    n = 0
+    for im in facts.impls_of(US):
+        cl = c08.classify(facts, im)
+        if cl is None:
+            continue
+        kind, tparam, fields, holding, wrapper = cl
+        st = base_ty(im["self_ty"])
+        hold = set(holding) | set(wrapper)
+        if not hold:
+            continue
+        sg = [i for i in facts.impls_of(SG) if base_ty(i["self_ty"]) == st]
+        meths = {m: facts.body(im["items"].get(m, "")) for m in ("get", "get_mut")}
+        if sg:
+            meths["shared_get_mut"] = facts.body(sg[0]["items"].get("shared_get_mut", ""))
+        locs = {}
+        for m, b in meths.items():
+            if b is None:
+                continue
+            found = set()
+            for bb, t in b.calls():
+                c = t["callee"]
+                if c.get("name") not in LOCATE or len(t["args"]) < 2:
+                    continue
+                ro = b.roots(b.arg_origin(bb, 0))
+                if any(r[0] == "param" and r[1] == 1 and r[2] and r[2][0] in hold for r in ro):
+                    found.add(abst(b, b.arg_origin(bb, 1)))
+            # accessors forwarding to a sibling (get_mut -> shared_get_mut) inherit its locator
+            if not found:
+                for bb, t in b.calls():
+                    for x in facts.targets(t["callee"]):
+                        if x.self_ty == b.self_ty and x.name in meths and x.name != m:
+                            found.add("-> " + x.name)
+            locs[m] = found
+        real = {m: v for m, v in locs.items() if v and not all(x.startswith("-> ") for x in v)}
+        if len(real) < 2:
+            continue
+        n += 1
+        vals = list(real.values())
+        ok = all(v == vals[0] for v in vals)
+        b0 = next(b for b in meths.values() if b is not None)
+        ctx.ob("C04-R8", "%s: accessors agree on where the component of an index lives" % st, ok, b0.loc(),
+               "" if ok else "get / get_mut / shared_get_mut locate the slot differently: %s - a lookup through one accessor can return another entity's component" % (
+                   {m: sorted(v) for m, v in real.items()}))
+    ctx.floor("C04-R8", "storages whose accessors are compared", n, 4)
